@@ -8,7 +8,10 @@
       TryTransition / TeardownEnvironment, compared step by step by the trace monitor.
 -/
 import ControlModel.Gen.EnvFsm
+import ControlModel.Gen.EnvLocks
 import ControlModel.Proofs.Env
+import ControlModel.Proofs.EnvConc
+import ControlModel.Spec.C01
 
 open EnvM
 
@@ -137,6 +140,20 @@ theorem C01_illegal_inert (hooks : List Hook) (env : Env) (e : Ev) (b r : Bool) 
     tryTransition env hooks e b r = (env, [], .illegal) := by
   unfold tryTransition fsmEvent; rw [h]
 
+/-- A teardown that is not legal — the environment is DONE, or it is neither STANDBY nor
+    DEPLOYED and `force` was not given — is refused and executes nothing: no hook, no release, no
+    change. -/
+theorem C01_illegal_teardown_inert (hooks : List Hook) (env : Env) (f r1 r2 : Bool) (n : Nat)
+    (h : env.st = .DONE ∨ (env.st ≠ .STANDBY ∧ env.st ≠ .DEPLOYED ∧ f = false)) :
+    teardown env hooks f r1 r2 n = (env, [], .teardownRefused) := by
+  unfold teardown
+  rcases h with h | ⟨h1, h2, h3⟩
+  · simp [h]
+  · subst h3
+    by_cases hd : env.st = .DONE
+    · simp [hd]
+    · simp [hd, h1, h2]
+
 /-- Through the API an illegal request contributes NO step of its own — everything that
     runs is the GO_ERROR fallback (whose no-op body is not a task command) — is answered
     with an error, and leaves the environment in ERROR. -/
@@ -171,3 +188,191 @@ example :
                                 await := .before .CONFIGURE, aw := 0, outcomes := [true] }]
     reported hooks 1 {} [.control .DEPLOY true false, .control .CONFIGURE true false, .teardown true true true]
       = [.DEPLOYED, .ERROR, .DONE] := by decide
+
+/-! ## one at a time -/
+
+/-- What the concurrent layer (Model/EnvConc) assumes about the code, re-read from the source
+    by go/ast on every run: the ONLY place that fires the environment's state machine is
+    TryTransition, with transitionMutex held (deferred unlock); the only direct writes of the
+    state are `DONE` at the end of TeardownEnvironment — under the mutex — and the forced
+    `ERROR` of the failure paths (`setState` itself, the workflow watcher writing the ERROR it
+    was notified of, auto-stop, CreateEnvironment, integrated-service events,
+    CreateAutoEnvironment, ControlEnvironment), which hold no lock: `Piece.force`. A new
+    unlocked writer, or a second place that fires events, makes this theorem false. -/
+theorem C01_lock_sites_are_code :
+    Gen.smEventSites.map (·.2) = [true] ∧
+    Gen.stateWriteSites.map (·.2) =
+      [("state", false), ("wfState.String()", false), ("ERROR", false), ("ERROR", false), ("DONE", true),
+       ("ERROR", false), ("ERROR", false), ("ERROR", false)] := by decide
+
+/-- **At most one transition or teardown of an environment is in progress at any instant**:
+    for EVERY set of concurrent callers (any requests) and EVERY schedule of their moves
+    (look-up, take the mutex and run, release, GO_ERROR fallback, forced write), at most one
+    caller is inside the mutex. -/
+theorem C01_mutex (hooks : List Hook) (n : Nat) (env : Env) (reqs : List Req) (sched : List Nat) :
+    AtMostOne (runSched hooks n (initSys env reqs) sched).callers :=
+  (concInv_run hooks n env _ sched (concInv_init hooks n env reqs)).mutex
+
+/-- **Concurrent requests are executed one after the other, each one seeing the state left by
+    the previous one**: under every schedule the pieces that were executed form a chain — the
+    first found the initial environment, every other one found exactly what its predecessor
+    left, and the environment now is what the last one left … -/
+theorem C01_serial (hooks : List Hook) (n : Nat) (env : Env) (reqs : List Req) (sched : List Nat) :
+    chained env (runSched hooks n (initSys env reqs) sched).log ∧
+    lastEnv env (runSched hooks n (initSys env reqs) sched).log = (runSched hooks n (initSys env reqs) sched).env :=
+  ⟨(concInv_run hooks n env _ sched (concInv_init hooks n env reqs)).chain,
+   (concInv_run hooks n env _ sched (concInv_init hooks n env reqs)).last⟩
+
+/-- … and every executed piece did to the environment it found exactly what that request
+    does when it runs alone (`runLocked`: TryTransition / TeardownEnvironment; the GO_ERROR
+    fallback; the forced ERROR): no schedule lets a caller observe or produce a half-done
+    transition of another. -/
+theorem C01_pieces_atomic (hooks : List Hook) (n : Nat) (env : Env) (reqs : List Req) (sched : List Nat) :
+    ∀ x ∈ (runSched hooks n (initSys env reqs) sched).log, x.faithful hooks n :=
+  (concInv_run hooks n env _ sched (concInv_init hooks n env reqs)).faithful
+
+/-- Non-vacuity: three callers, the schedule lets the second arrive (and look the environment
+    up) while the first is inside; all three run, in mutex order, on each other's results. -/
+example :
+    let s := runSched [] 1 (initSys {} [.try_ .DEPLOY true false, .control .CONFIGURE true false, .teardown false true true])
+      [0, 0, 1, 2, 1, 2, 0, 1, 1, 2, 2]
+    s.log.map (fun x => (x.caller, x.before.st, x.after.st)) =
+      [(0, .STANDBY, .DEPLOYED), (1, .DEPLOYED, .CONFIGURED), (2, .CONFIGURED, .CONFIGURED)] := by decide
+
+/-! ### overlapping requests as the harness issues them (`PReq.par`) -/
+
+/-- States reported after each request of a list with overlapping pairs, in mutex order. -/
+def reportedPar (hooks : List Hook) (n : Nat) (env : Env) (qs : List PReq) : List St :=
+  (runPar hooks n env qs).map (·.2.2.st)
+
+def PReq.inScope : PReq → Bool
+  | .one q => q.inScope
+  | .par a b => a.inScope && b.inScope
+
+/-- The excluded pairs: an API control request that arrives while a teardown is in progress. -/
+def PReq.noControlOverTeardown : PReq → Bool
+  | .par (.teardown ..) (.control ..) => false
+  | _ => true
+
+/-- The graph clause at full strength for overlapping requests. -/
+def C01_graph_par_full : Prop :=
+  ∀ (hooks : List Hook) (n : Nat) (qs : List PReq), qs.all PReq.inScope = true →
+    chainOk .STANDBY (reportedPar hooks n {} qs) = true
+
+/-- **Finding control_overlaps_teardown**: a ControlEnvironment request that looked the
+    environment up while a teardown was in progress gets the mutex after it, is refused (the
+    event is illegal in DONE), the GO_ERROR fallback is refused too, and the glue then forces
+    the state: the reply reports ERROR for an environment that is DONE and unlisted —
+    DONE → ERROR is not an edge of the documented graph. -/
+theorem C01_finding_control_overlaps_teardown : ¬ C01_graph_par_full := by
+  intro h
+  have := h [] 1 [.par (.teardown true true true) (.control .DEPLOY true false)] (by decide)
+  revert this
+  decide
+
+theorem try_notDone (hooks : List Hook) (env : Env) (e : Ev) (b r : Bool)
+    (he : e.isApi = true ∨ e = .GO_ERROR) (hnd : env.st ≠ .DONE) : (tryTransition env hooks e b r).1.st ≠ .DONE := by
+  unfold tryTransition
+  obtain ⟨_, h | ⟨d, hd, hst, _⟩⟩ := fsmEvent_st env hooks e b r
+  · rw [h.1]; exact hnd
+  · rw [hst]; exact (api_edge e env.st d he hd).2.1
+
+/-- `control_edge` only needs the environment not to be DONE. -/
+theorem control_edge_live (hooks : List Hook) (env : Env) (e : Ev) (b r : Bool)
+    (he : e.isApi = true) (hinv : DoneIsGone env) (hnd : env.st ≠ .DONE) :
+    docEdge env.st (controlApi env hooks e b r).1.st = true ∧ DoneIsGone (controlApi env hooks e b r).1 ∧
+    (controlApi env hooks e b r).1.st ≠ .DONE := by
+  rcases controlApi_cases hooks env e b r with ⟨hok, heq⟩ | ⟨hnok, hE, hg, _⟩
+  · have := try_edge hooks env e b r (Or.inl he) hinv
+    rw [heq]; exact ⟨this.1, this.2, try_notDone hooks env e b r (Or.inl he) hnd⟩
+  · refine ⟨?_, (by intro hD; rw [hE] at hD; cases hD), by rw [hE]; simp⟩
+    rw [hE]; revert hnd; cases env.st <;> simp [docEdge, St.live]
+
+/-- One request that is not a teardown keeps a not-DONE environment not DONE. -/
+theorem step_notDone (hooks : List Hook) (n : Nat) (env : Env) (q : Req) (hq : q.inScope = true)
+    (hinv : DoneIsGone env) (hnd : env.st ≠ .DONE) (hnt : ∀ f a b, q ≠ .teardown f a b) :
+    (step hooks n env q).1.st ≠ .DONE := by
+  cases q with
+  | try_ e b r =>
+    simp only [Req.inScope, Bool.or_eq_true, beq_iff_eq] at hq
+    exact try_notDone hooks env e b r hq hnd
+  | control e b r =>
+    simp only [step]
+    split
+    · exact hnd
+    · exact (control_edge_live hooks env e b r hq hinv hnd).2.2
+  | teardown f a b => exact absurd rfl (hnt f a b)
+
+/-- A held request (its look-up saw `listed`) moves the reported state along a documented
+    edge and keeps "DONE ⇒ unlisted", provided it is not an API control request finding DONE. -/
+theorem stepHeld_edge (hooks : List Hook) (n : Nat) (listed : Bool) (env : Env) (q : Req)
+    (hq : q.inScope = true) (hinv : DoneIsGone env)
+    (hc : ∀ e b r, q = .control e b r → listed = true → env.st ≠ .DONE) :
+    docEdge env.st (stepHeld hooks n listed env q).1.st = true ∧ DoneIsGone (stepHeld hooks n listed env q).1 := by
+  cases q with
+  | try_ e b r =>
+    simp only [Req.inScope, Bool.or_eq_true, beq_iff_eq] at hq
+    exact try_edge hooks env e b r hq hinv
+  | control e b r =>
+    simp only [stepHeld]
+    split
+    · exact ⟨docEdge_refl _, hinv⟩
+    · rename_i hl
+      have := control_edge_live hooks env e b r hq hinv (hc e b r rfl (by simpa using hl))
+      exact ⟨this.1, this.2.1⟩
+  | teardown f r1 r2 =>
+    simp only [stepHeld]
+    split
+    · exact ⟨docEdge_refl _, hinv⟩
+    · rcases teardown_st env hooks f r1 r2 n with ⟨h1, h2, _⟩ | ⟨hnd, h1, h2, _⟩
+      · rw [h1]; exact ⟨docEdge_refl _, (by intro hD; rw [h2]; exact hinv (h1 ▸ hD))⟩
+      · rw [h1]; exact ⟨by revert hnd; cases env.st <;> simp [docEdge], fun _ => h2⟩
+
+/-- **The graph clause for overlapping requests**: for EVERY hook set and EVERY list of in-scope
+    requests and overlapping pairs — the second of a pair having looked the environment up
+    before the first finished — consecutive reported states are joined by documented edges,
+    provided no API control request overlaps a teardown (`noControlOverTeardown`; excluded by
+    finding control_overlaps_teardown). -/
+theorem C01_graph_par_partial (hooks : List Hook) (n : Nat) (qs : List PReq)
+    (hq : qs.all PReq.inScope = true) (hp : qs.all PReq.noControlOverTeardown = true)
+    (env : Env) (hinv : DoneIsGone env) :
+    chainOk env.st (reportedPar hooks n env qs) = true := by
+  induction qs generalizing env with
+  | nil => rfl
+  | cons q qs ih =>
+    simp only [List.all_cons, Bool.and_eq_true] at hq hp
+    cases q with
+    | one a =>
+      obtain ⟨h1, h2⟩ := C01_step_edge hooks n env a hq.1 hinv
+      simp only [reportedPar, runPar, List.map_cons, chainOk, Bool.and_eq_true]
+      exact ⟨h1, ih hq.2 hp.2 _ h2⟩
+    | par a b =>
+      simp only [PReq.inScope, Bool.and_eq_true] at hq
+      obtain ⟨h1, h2⟩ := C01_step_edge hooks n env a hq.1.1 hinv
+      have hb := stepHeld_edge hooks n (!env.gone) (step hooks n env a).1 b hq.1.2 h2 (by
+        intro e x r hbc hl
+        -- listed: the environment was not gone, hence not DONE, before `a`; `a` is not a teardown
+        have hng : env.gone = false := by simpa using hl
+        have hnd : env.st ≠ .DONE := fun h => by have := hinv h; simp [hng] at this
+        apply step_notDone hooks n env a hq.1.1 hinv hnd
+        intro f r1 r2 hat
+        subst hat; subst hbc
+        simp [PReq.noControlOverTeardown] at hp)
+      simp only [reportedPar, runPar, List.map_cons, chainOk, Bool.and_eq_true]
+      exact ⟨h1, hb.1, ih hq.2 hp.2 _ hb.2⟩
+
+/-- In a pair, the second request runs on exactly what the first left (and the rest of the
+    list on what the second left): overlapping requests are a sequence. -/
+theorem C01_par_is_sequence (hooks : List Hook) (n : Nat) (env : Env) (a b : Req) (qs : List PReq) :
+    runPar hooks n env (.par a b :: qs) =
+      (let r1 := step hooks n env a
+       let r2 := stepHeld hooks n (!env.gone) r1.1 b
+       (r1.2.1, r1.2.2, r1.1) :: (r2.2.1, r2.2.2, r2.1) :: runPar hooks n r2.1 qs) := rfl
+
+/-- A pair whose first request leaves the listing alone is the two requests issued one after the other. -/
+theorem C01_par_eq_seq (hooks : List Hook) (n : Nat) (env : Env) (a b : Req)
+    (hg : (step hooks n env a).1.gone = env.gone) :
+    stepHeld hooks n (!env.gone) (step hooks n env a).1 b = step hooks n (step hooks n env a).1 b := by
+  generalize hs : step hooks n env a = r at hg
+  cases b <;> simp [stepHeld, step, hg]
+
